@@ -47,6 +47,8 @@ def shards(tier, seed):
 
 def names_var(resp, name, span):
     for e in resp.get("errors") or []:
+        if explore.error_shape(e):
+            continue
         if ("$" + name) in str(e.get("message")):
             return True
         for l in e.get("locations") or []:
